@@ -285,4 +285,128 @@ theorem fromExisting_ok (hd : Spec.Tex.Header) (hwf : hd.WF) (fmt : Format)
       (by decide) _ _ _ payload ha hen
     exact ⟨rgba, by simp only [modelFormat, decodeBc5]; rw [show (16 : Nat) = Format.bc5.blockBytes from rfl, e], hc⟩
 
+
+/-- outside BC3 the convention parameter is irrelevant -/
+theorem pixelOK_conv_irrel (c1 c2 : Bc3Colour) (fmt : Format) (hf : fmt ≠ .bc3) (blk : Bytes) (i : Nat) (px : Px) :
+    PixelOK c1 fmt blk i px ↔ PixelOK c2 fmt blk i px := by
+  cases fmt <;> simp_all [PixelOK]
+
+theorem canonPixel_conv_irrel (c1 c2 : Bc3Colour) (fmt : Format) (hf : fmt ≠ .bc3) (blk : Bytes) (i : Nat) :
+    canonPixel c1 fmt blk i = canonPixel c2 fmt blk i := by
+  cases fmt <;> simp_all [canonPixel]
+
+/-- on a BC3 block whose selected colour entry is the same under both readings, the two
+conventions permit the same pixels and have the same canonical pixel -/
+theorem bc3_conv_agree (blk : Bytes) (i : Nat)
+    (h : (colourAt true (blk.drop 8) i).map (·.1) = (colourAt false (blk.drop 8) i).map (·.1)) (px : Px) :
+    (PixelOK .bc1Modes .bc3 blk i px → PixelOK .always4 .bc3 blk i px) ∧
+    (canonPixel .bc1Modes .bc3 blk i = canonPixel .always4 .bc3 blk i) := by
+  have h1 : decide (Bc3Colour.bc1Modes = Bc3Colour.always4) = false := by decide
+  have h2 : decide (Bc3Colour.always4 = Bc3Colour.always4) = true := by decide
+  have h3 : decide True = true := by decide
+  simp only [PixelOK, canonPixel, h1, eq_self, h3]
+  cases ht : colourAt true (blk.drop 8) i <;> cases hf : colourAt false (blk.drop 8) i <;>
+    simp only [ht, hf, Option.map_some, Option.map_none, Option.some.injEq, reduceCtorEq] at h
+  · simp
+  · simp only [h]
+    exact ⟨fun h => h, by cases alphaAt (blk.take 8) i <;> simp only [h]⟩
+
+theorem CanonPixels.always4 {fmt w h d payload rgba}
+    (hc : CanonPixels .bc1Modes fmt w h d payload rgba)
+    (hk : ¬ Bc3ConventionsDiffer fmt w h d payload.toArray) :
+    CanonPixels .always4 fmt w h d payload rgba := by
+  refine ⟨hc.1, ?_⟩
+  intro z hz y hy x hx
+  obtain ⟨px, h1, h2, h3⟩ := hc.2 z hz y hy x hx
+  refine ⟨px, h1, ?_, ?_⟩
+  · by_cases hf : fmt = .bc3
+    · subst hf
+      have : (colourAt true ((blockAt .bc3 payload.toArray (blockIndex .bc3 w h x y z)).drop 8) (within .bc3 x y)).map (·.1)
+          = (colourAt false ((blockAt .bc3 payload.toArray (blockIndex .bc3 w h x y z)).drop 8) (within .bc3 x y)).map (·.1) := by
+        apply Classical.byContradiction
+        intro hne
+        exact hk ⟨rfl, z, hz, y, hy, x, hx, hne⟩
+      rw [← (bc3_conv_agree _ _ this px).2]; exact h2
+    · rw [canonPixel_conv_irrel .always4 .bc1Modes fmt hf]; exact h2
+  · by_cases hf : fmt = .bc3
+    · subst hf
+      have : (colourAt true ((blockAt .bc3 payload.toArray (blockIndex .bc3 w h x y z)).drop 8) (within .bc3 x y)).map (·.1)
+          = (colourAt false ((blockAt .bc3 payload.toArray (blockIndex .bc3 w h x y z)).drop 8) (within .bc3 x y)).map (·.1) := by
+        apply Classical.byContradiction
+        intro hne
+        exact hk ⟨rfl, z, hz, y, hy, x, hx, hne⟩
+      exact (bc3_conv_agree _ _ this px).1 h3
+    · exact (pixelOK_conv_irrel .always4 .bc1Modes fmt hf _ _ _).mpr h3
+
+
+theorem drop_of_pxAt (rgba : Bytes) (s : Nat) (px : Px) (h : pxAt rgba.toArray s = some px) :
+    rgba.drop (4 * s) = px.bytes ++ rgba.drop (4 * (s + 1)) := by
+  simp only [pxAt, List.getElem?_toArray] at h
+  split at h
+  · rename_i r g b a h0 h1 h2 h3
+    cases h
+    obtain ⟨l0, e0⟩ := List.getElem?_eq_some_iff.mp h0
+    obtain ⟨l1, e1⟩ := List.getElem?_eq_some_iff.mp h1
+    obtain ⟨l2, e2⟩ := List.getElem?_eq_some_iff.mp h2
+    obtain ⟨l3, e3⟩ := List.getElem?_eq_some_iff.mp h3
+    rw [List.drop_eq_getElem_cons l0, List.drop_eq_getElem_cons l1, List.drop_eq_getElem_cons l2,
+      List.drop_eq_getElem_cons l3, e0, e1, e2, e3]
+    simp only [Px.bytes, List.cons_append, List.nil_append]
+    congr 5
+  · cases h
+
+theorem build_eq (f : Nat → Option Px) (rgba : Bytes) : ∀ (n s : Nat), rgba.length = 4 * (s + n) →
+    (∀ k, s ≤ k → k < s + n → ∃ px, f k = some px ∧ pxAt rgba.toArray k = some px) →
+    (List.range' s n).foldr (fun k acc => match f k, acc with
+      | some p, some bs => some (p.bytes ++ bs)
+      | _, _ => none) (some []) = some (rgba.drop (4 * s)) := by
+  intro n
+  induction n with
+  | zero =>
+    intro s hl _
+    simp only [List.range'_zero, List.foldr_nil, Option.some.injEq]
+    rw [List.drop_of_length_le (by omega)]
+  | succ n ih =>
+    intro s hl hf
+    obtain ⟨px, e1, e2⟩ := hf s (Nat.le_refl _) (by omega)
+    rw [List.range'_succ, List.foldr_cons, ih (s + 1) (by omega) (fun k h1 h2 => hf k (by omega) (by omega)), e1]
+    simp only [Option.some.injEq]
+    exact (drop_of_pxAt rgba s px e2).symm
+
+theorem canonImage_eq (conv : Bc3Colour) (fmt : Format) (w h d : Nat) (payload rgba : Bytes)
+    (hc : CanonPixels conv fmt w h d payload rgba) (hen : needed fmt w h d ≤ payload.length) :
+    canonImage conv fmt w h d payload.toArray = some rgba := by
+  unfold canonImage
+  rw [if_neg (by simpa using hen), List.range_eq_range']
+  have := build_eq (canonPixelAt conv fmt w h payload.toArray) rgba (w * h * d) 0 (by simpa using hc.1) ?_
+  · simp only [Nat.mul_zero, List.drop_zero] at this
+    exact this
+  · intro k _ hk
+    simp only [Nat.zero_add] at hk
+    have hw : 0 < w := by
+      rcases Nat.eq_zero_or_pos w with h0 | h0
+      · subst h0; simp at hk
+      · exact h0
+    have hh : 0 < h := by
+      rcases Nat.eq_zero_or_pos h with h0 | h0
+      · subst h0; simp at hk
+      · exact h0
+    have hY : k / w < h * d := by
+      apply Nat.div_lt_of_lt_mul
+      rw [← Nat.mul_assoc]; exact hk
+    have hz : k / w / h < d := Nat.div_lt_of_lt_mul hY
+    have hy : k / w % h < h := Nat.mod_lt _ hh
+    have hx : k % w < w := Nat.mod_lt _ hw
+    obtain ⟨px, h1, h2, _⟩ := hc.2 _ hz _ hy _ hx
+    have hk' : (k / w / h * h + k / w % h) * w + k % w = k := by
+      rw [Nat.mul_comm (k / w / h) h, Nat.div_add_mod, Nat.mul_comm (k / w) w, Nat.div_add_mod]
+    rw [hk'] at h1
+    exact ⟨px, h2, h1⟩
+
+
+/-- the observable result of `Texture::from_existing`, in the specification's vocabulary (this is
+what the driver prints for the model and what the harness prints for the real code) -/
+def toDecoded (t : Tex.Texture) : Spec.Tex.Decoded :=
+  ⟨t.textureType = .ThreeDimensional, t.width.toNat, t.height.toNat, t.depth.toNat, t.rgba⟩
+
 end Physis.Proofs.Tex
